@@ -395,11 +395,25 @@ func (p *Proxy) handleConnectRequest(ctx *Context, req *http.Request, session *S
 	}
 
 	log.Debugf("martian: attempting to establish CONNECT tunnel: %s", req.URL.Host)
-	res, cconn, cerr := p.connect(req)
-	if cerr != nil {
-		log.Errorf("martian: failed to CONNECT: %v", cerr)
-		res = proxyutil.NewResponse(502, nil, req)
-		proxyutil.Warning(res.Header, cerr)
+	var (
+		res   *http.Response
+		cconn net.Conn
+		cerr  error
+	)
+	if ctx.SkippingRoundTrip() {
+		// No upstream contact for this exchange: answered like a skipped round
+		// trip of any other request, without a tunnel behind the answer.
+		log.Debugf("martian: skipping round trip")
+		res = proxyutil.NewResponse(200, nil, req)
+	} else {
+		res, cconn, cerr = p.connect(req)
+	}
+	if cerr != nil || cconn == nil {
+		if cerr != nil {
+			log.Errorf("martian: failed to CONNECT: %v", cerr)
+			res = proxyutil.NewResponse(502, nil, req)
+			proxyutil.Warning(res.Header, cerr)
+		}
 
 		if err := p.resmod.ModifyResponse(res); err != nil {
 			log.Errorf("martian: error modifying CONNECT response: %v", err)
